@@ -1,4 +1,4 @@
-import Proofs.Lemmas.ForkChoiceSim
+import Proofs.Lemmas.ForkChoiceSimBase
 /-!
 # Fork choice (C11): the navigation queries `ClosestToSlot` and `CanonicalChain` refine the specification
 
